@@ -11,24 +11,26 @@
 (*  - with Emit = TRUE every behaviour of length Depth is printed as one JSON case that *)
 (*    the harness replays on the real Sparse<Rat> / Sparse<f64>.                        *)
 EXTENDS SparseCSC, TLC, Json
-CONSTANTS MaxR, MaxC, MaxEnt, Depth, Emit
+CONSTANTS MaxR, MaxC, MaxEnt, Depth, Emit, WithZero
 VARIABLES cur, model, init, hist, trail
 vars == <<cur, model, init, hist, trail>>
 
 ScaleVals == {-1, 2}
+\* WithZero adds explicit zeros: an initial zero entry at (0,0), insert of 0 (new / overwrite), scale by 0
+Z == IF WithZero THEN {0} ELSE {}
 VecVals == {-1, 0, 1, 2}
 Vecs(n) == [1..n -> VecVals]
 
 Positions(r, c) == (0..(r - 1)) \X (0..(c - 1))
 \* initial values are pairwise distinct and nonzero: a misplaced or lost entry is visible
-ValAt(c, p) == 1 + p[1] * c + p[2]
+ValAt(c, p) == IF WithZero /\ p = <<0, 0>> THEN 0 ELSE 1 + p[1] * c + p[2]
 Orders(P) == LET n == Cardinality(P) IN {f \in [1..n -> P] : \A a, b \in 1..n : a # b => f[a] # f[b]}
 TsOf(c, f) == [m \in 1..Len(f) |-> <<f[m][1], f[m][2], ValAt(c, f[m])>>]
 
 Op(name) == [op |-> name, i |-> 0, j |-> 0, v |-> 0, a |-> 0]
 Ops(M, k) ==
-     {[Op("insert") EXCEPT !.i = p[1], !.j = p[2], !.v = 40 + k] : p \in Positions(M.rows, M.cols)}
-  \cup {[Op("scale") EXCEPT !.a = a] : a \in ScaleVals}
+     {[Op("insert") EXCEPT !.i = p[1], !.j = p[2], !.v = v] : p \in Positions(M.rows, M.cols), v \in {40 + k} \cup Z}
+  \cup {[Op("scale") EXCEPT !.a = a] : a \in ScaleVals \cup Z}
   \cup {Op("transpose")}
 
 Init == \E r \in 0..MaxR, c \in 0..MaxC :
@@ -73,8 +75,30 @@ PerturbedMap(M) ==
 Perturbed(M) == PerturbedMap(M) \cup {[M EXCEPT !.rows = @ + 1], [M EXCEPT !.cols = @ + 1]}
 Inv_Fast == /\ RefinesFast(cur, model)
             /\ \A M2 \in Perturbed(model) : ~RefinesFast(cur, M2) /\ Abs(cur) # M2
-            /\ \A M2 \in Perturbed(model) : ~ViewDense(ToDense(cur), M2) /\ ~ViewGet(GetMat(cur, 1), GetMat(cur, 2), M2)
+            /\ \A M2 \in Perturbed(model) : ViewDense(ToDense(cur), M2) = MSameValue(model, M2)     \* (dense is by value)
+            /\ \A M2 \in Perturbed(model) : ~ViewGet(GetMat(cur, 1), GetMat(cur, 2), M2)
             /\ \A M2 \in PerturbedMap(model) : ~ViewTriplets(ToTriplets(cur), M2)      \* (a triplet list carries no shape)
+
+\* comparison by value (stored zero == absent): the linear tests of the trace specification are the
+\* definition MSameValue, on the model, on perturbed models and on models that differ only in zeros; a
+\* storage that drops its zeros still passes every by-value test
+ZeroVariants(M) ==
+     {[M EXCEPT !.map = [p \in (DOMAIN M.map) \ {q} |-> M.map[p]]] : q \in {p \in DOMAIN M.map : M.map[p] = 0}}
+  \cup {MInsert(M, q[1], q[2], 0) : q \in Positions(M.rows, M.cols) \ DOMAIN M.map}
+NonZeroTs(ts) == SelectSeq(ts, LAMBDA t : t[3] # 0)
+Inv_Value ==
+    LET DZ == FromTriplets(cur.rows, cur.cols, NonZeroTs(ToTriplets(cur)))        \* the same matrix, zeros dropped
+    IN /\ RefinesValue(cur, model) /\ RefinesValue(DZ, model) /\ WellFormed(DZ)
+       /\ ViewGetV(GetMat(cur, 1), GetMat(cur, 2), model) /\ ViewGetV(GetMat(DZ, 1), GetMat(DZ, 2), model)
+       /\ ViewTripletsV(ToTriplets(cur), model) /\ ViewTripletsV(ToTriplets(DZ), model)
+       /\ ViewDense(ToDense(DZ), model)
+       /\ ViewColIndexF(ColIndex(cur), cur) /\ ViewColIndexF(ColIndex(DZ), DZ)
+       /\ \A M2 \in Perturbed(model) \cup ZeroVariants(model) :
+             /\ RefinesValue(cur, M2) = MSameValue(Abs(cur), M2)
+             /\ RefinesValue(DZ, M2) = MSameValue(model, M2)
+             /\ ViewGetV(GetMat(cur, 1), GetMat(cur, 2), M2) = MSameValue(model, M2)
+       /\ \A M2 \in PerturbedMap(model) \cup ZeroVariants(model) :
+             ViewTripletsV(ToTriplets(cur), M2) = MSameValue(model, M2)
 
 (* ---------------- C07 (on every state of the C06 machine) ---------------- *)
 Eq(u, v) == D!SameSeq(u, v)
